@@ -6,6 +6,7 @@
 package main
 
 import (
+	"context"
 	"errors"
 	"fmt"
 	"math/rand/v2"
@@ -13,6 +14,7 @@ import (
 	"net/http"
 	"net/url"
 	"strings"
+	"sync"
 
 	"foxverif/kit"
 	"foxverif/ref"
@@ -172,6 +174,9 @@ func main() {
 		return
 	}
 	n := run.Pick(5000, 200000)
+	if run.Mode() == "race" {
+		n = run.Pick(300, 5000)
+	}
 	run.Parallel(n/100, func(b int) {
 		r := run.Rand(uint64(b))
 		for i := 0; i < 100; i++ {
@@ -180,6 +185,63 @@ func main() {
 		}
 	})
 	invalid(run)
+	concurrent(run)
+}
+
+type tagKey struct{}
+
+// concurrent: routes created at the same time, each with its own options (middleware, resolver, annotation), carry
+// exactly their own configuration afterwards.
+func concurrent(run *kit.Run) {
+	rounds := run.Pick(150, 3000)
+	for round := 0; round < rounds; round++ {
+		var gopts []fox.GlobalOption
+		for i := 0; i < round%7; i++ {
+			gopts = append(gopts, fox.WithMiddleware(func(n fox.HandlerFunc) fox.HandlerFunc { return n }))
+		}
+		f, err := fox.New(gopts...)
+		if err != nil {
+			run.Inconclusive("fox.New: %v", err)
+			return
+		}
+		const G = 8
+		routes := make([]*fox.Route, G)
+		var wg sync.WaitGroup
+		start := make(chan struct{})
+		for g := 0; g < G; g++ {
+			wg.Add(1)
+			go func(g int) {
+				defer wg.Done()
+				<-start
+				tag := func(next fox.HandlerFunc) fox.HandlerFunc {
+					return func(c fox.Context) {
+						if t, _ := c.Request().Context().Value(tagKey{}).(*[]int); t != nil {
+							*t = append(*t, g)
+						}
+						next(c)
+					}
+				}
+				routes[g], _ = f.NewRoute(fmt.Sprintf("/c/%d/{x}", g), func(fox.Context) {}, fox.WithMiddleware(tag), fox.WithAnnotation(annotKey{0}, g), fox.WithClientIPResolver(resolvers[g%3]))
+			}(g)
+		}
+		close(start)
+		wg.Wait()
+		for g, rte := range routes {
+			run.Case(fmt.Sprintf("concurrent|%d|%d", round, g), true)
+			if rte == nil {
+				run.Violate("concurrent-newroute", "NewRoute failed under concurrency", nil)
+				continue
+			}
+			var trace []int
+			req := (&http.Request{Method: "GET", URL: &url.URL{Path: fmt.Sprintf("/c/%d/v", g)}, Header: http.Header{}}).WithContext(context.WithValue(context.Background(), tagKey{}, &trace))
+			tc := fox.NewTestContextOnly(&nullW{http.Header{}}, req)
+			rte.HandleMiddleware(tc)
+			if len(trace) != 1 || trace[0] != g || rte.Annotation(annotKey{0}) != g || rte.ClientIPResolver() != fox.ClientIPResolver(resolvers[g%3]) {
+				run.Violate(fmt.Sprintf("concurrent-config|globals=%d", round%7), fmt.Sprintf("route %d created concurrently with 7 others on a router with %d global middleware carries middleware of route(s) %v, annotation %v", g, round%7, trace, rte.Annotation(annotKey{0})), map[string]int{"globals": round % 7, "route": g})
+			}
+		}
+	}
+	run.Count("concurrent_rounds", int64(rounds))
 }
 
 func interacts(c caseT) bool {
